@@ -92,6 +92,11 @@ def _scenarios(facts):
         Scenario("no option at all", [], toks([]), False),
         Scenario("every ordered pair of token kinds side by side", [_opt(thr, 1)], all_pairs(), False),
         Scenario("only leading options, nothing after them", [_opt(thr, 9), _opt(dep)], None, True),
+        # the order among the leading options themselves (nothing later overrides them)
+        Scenario("three leading thread counts, no option among the tokens", [_opt(thr, 11), _opt(thr, 12), _opt(thr, 13)], toks([]), False),
+        Scenario("two leading thread counts and nothing else", [_opt(thr, 21), _opt(thr, 22)], None, True),
+        # the order among the options written inside the expression (no leading one)
+        Scenario("three thread counts among the tokens only", [], toks([_opt(thr, 31), _opt(thr, 32), _opt(thr, 33)]), False),
     ]
 
 
